@@ -3,4 +3,4 @@ From LTV.C15 Require Import Model.
 Set Extraction Optimize.
 Extraction Language OCaml.
 (* Z.of_N is extracted only because ocaml/conv.ml mentions the type z *)
-Extraction "extracted/c15_model.ml" init step run idspace Z.of_N.
+Extraction "extracted/c15_model.ml" init step run idspace Z.of_N sinit sstep srun.
